@@ -387,10 +387,18 @@ def rule_paired(rep: Report, repo: Repo) -> None:
               and (fresh[0].result[1] or '').startswith('_v'))
     rep.check(ok_new, 'C02.PAIRED-UPDATE', 'get_wflip_spot:new-spot', f'{[(o.state, o.effects, o.result) for o in fresh]}', f'{ASM}:{sp.lineno}',
               expected='spot = (list, len(list), next address) taken BEFORE two words are appended and the address advances by 2w')
-    ok_hole = (len(holes) == 1 and not holes[0].state and len(holes[0].effects) == 1 and holes[0].effects[0].endswith(':= self.padding_ops_indices.pop()'))
+    # the hole path: one pop, and nothing else but building the spot (returned directly or through a local)
+    ok_hole = len(holes) == 1 and not holes[0].state
     if ok_hole:
-        v = holes[0].effects[0].split(' := ')[0]
-        ok_hole = holes[0].result == ('return', f'WFlipSpot(self.fj_words, {v}, self.first_address + self.memory_width * {v})')
+        binds = dict(e.split(' := ', 1) for e in holes[0].effects if ' := ' in e)
+        pops = [k for k, v_ in binds.items() if v_ == 'self.padding_ops_indices.pop()']
+        built = {k: v_ for k, v_ in binds.items() if v_.startswith('WFlipSpot(')}
+        ok_hole = len(pops) == 1 and len(binds) == len(holes[0].effects) == 1 + len(built) and len(built) <= 1
+        if ok_hole:
+            v = pops[0]
+            res = holes[0].result[1] or ''
+            res = built.get(res, res)
+            ok_hole = holes[0].result[0] == 'return' and res == f'WFlipSpot(self.fj_words, {v}, self.first_address + self.memory_width * {v})'
     rep.check(ok_hole and len(outs) == 2, 'C02.PAIRED-UPDATE', 'get_wflip_spot:pad-hole', f'{[(o.effects, o.result) for o in holes]}', f'{ASM}:{sp.lineno}',
               expected='hole address = segment first address + w * word index; each hole used once (one pop)')
     pad = inline_pure_temps(repo.func(ASM, 'BinaryData.insert_padding'))
@@ -493,8 +501,8 @@ def rule_flush_all(rep: Report, repo: Repo) -> None:
               expected='only `first_address == last_address` skips the write')
     n = 0
     for name, fns in repo.methods(ASM, 'BinaryData').items():
-        if not [c for c in calls(fns[-1]) if dotted(c.func) == 'add_segment_to_fjm']:
-            continue
+        if name.startswith('_') and name != '__init__':
+            continue                    # a private helper is read inside its callers
         fn = canonical_fn(repo, ASM, f'BinaryData.{name}')
         fl = [c for c in calls(fn) if dotted(c.func) == 'add_segment_to_fjm']
         if not fl:
@@ -533,9 +541,9 @@ def rule_pad_state(rep: Report, repo: Repo) -> None:
               f'{ASM}:{seg.lineno}', expected='both word lists are cleared after the segment is added')
     n = 0
     for name, fns in repo.methods(ASM, 'BinaryData').items():
-        fn = fns[-1]
         if name == 'close_and_add_segment' or name.startswith('_'):
             continue
+        fn = canonical_fn(repo, ASM, f'BinaryData.{name}')          # private helpers read in place
         direct = [c for c in calls(fn) if (dotted(c.func) == 'add_segment_to_fjm' and 'self.fj_words' in [norm(a) for a in c.args])
                   or dotted(c.func) == 'self.close_and_add_segment']
         if not direct:
